@@ -216,7 +216,8 @@ class Elem:
 
 class Doc:
     def __init__(self, root, utf8=False, cesu8=False, dedupe=True, with_resmap=True, extra_strings=(), extra_resmap_ids=(),
-                 share_string_data=False, sorted_attrs=False):
+                 share_string_data=False, sorted_attrs=False, attr_size=0x14):
+        self.attr_size = attr_size  # ResXMLTree_attrExt.attributeSize: records may be larger than the 20 bytes used today (trailing bytes are ignored)
         self.root = root
         self.utf8 = utf8
         self.cesu8 = cesu8
@@ -300,7 +301,8 @@ def build(doc):
                 ab += struct.pack("<III", nsr, nr, vr) + res_value(TYPE_STRING, vr)
             else:
                 ab += struct.pack("<III", nsr, nr, sref(a.raw)) + res_value(a.dtype, a.data)
-        ext = struct.pack("<IIHHHHHH", sref(e.ns), sref(e.name), 0x14, 0x14, len(attrs), e.id_index, e.class_index, e.style_index) + bytes(ab)
+            ab += bytes((0xA5 + k) & 0xFF for k in range(doc.attr_size - 0x14))
+        ext = struct.pack("<IIHHHHHH", sref(e.ns), sref(e.name), 0x14, doc.attr_size, len(attrs), e.id_index, e.class_index, e.style_index) + bytes(ab)
         node(RES_XML_START_ELEMENT_TYPE, e.line, e.comment, ext)
         for c in e.children:
             if isinstance(c, Elem):
